@@ -1177,6 +1177,8 @@ class PSBTIn:
                 or script_pubkey.is_p2wpkh()
             ):
                 raise ValueError("Witness UTXO provided for non-witness input")
+            if self.redeem_script and not script_pubkey.is_p2sh():
+                raise ValueError("RedeemScript defined for non-p2sh ScriptPubKey")
             if script_pubkey.is_p2sh() and self.redeem_script:
                 # the RedeemScript has to be the one committed to, and only a
                 # witness program may be spent with just the witness UTXO
@@ -1232,6 +1234,8 @@ class PSBTIn:
                         )
         else:
             # non-witness input
+            if self.witness_script:
+                raise ValueError("WitnessScript defined for non-witness input")
             if self.redeem_script:
                 if not script_pubkey.is_p2sh():
                     raise ValueError("RedeemScript defined for non-p2sh ScriptPubKey")
